@@ -286,6 +286,8 @@ def _equal(I, l: Any, r: Any, st, lexpr, rexpr) -> list:
         return [(l == r and type(l) is type(r) or (l == r and not isinstance(l, bool) and not isinstance(r, bool)), st)]
     if (isinstance(l, Ref) and is_concrete(r) and r is not None and not isinstance(r, tuple)) or (isinstance(r, Ref) and is_concrete(l) and l is not None and not isinstance(l, tuple)):
         return [(False, st)]  # a heap object never equals an enum member / scalar
+    if isinstance(l, Opaque) and isinstance(r, Opaque) and l.cls == r.cls == "vpath":
+        return [(l.tag == r.tag, st)]  # virtual paths are identified by their text
     if isinstance(l, Term) and isinstance(r, Term):
         if l == r:
             return [(True, st)]  # the same uninterpreted term
@@ -405,6 +407,8 @@ def _contains(I, container: Any, item: Any, st, item_expr) -> list:
         return [(True, st), (False, s2)]
     if is_concrete(item) and not members:
         return [(False, st)]
+    if isinstance(item, Opaque) and item.cls == "vpath" and all(isinstance(m, Opaque) and m.cls == "vpath" for m in members):
+        return [(any(m.tag == item.tag for m in members), st)]
     return _fork(st)
 
 
@@ -630,7 +634,7 @@ def enum_members(I, ci) -> list:
 
 
 def is_dataclass(ci) -> bool:
-    return any("dataclass" in ast.unparse(d) for d in ci.node.decorator_list)
+    return any("dataclass" in ast.unparse(d) for d in ci.node.decorator_list) or any(ast.unparse(b).split(".")[-1] == "NamedTuple" for b in ci.node.bases)
 
 
 def dataclass_fields(I, ci) -> list:
@@ -714,6 +718,10 @@ def getattr_(I, v: Any, name: str, st, node=None) -> list:
                 if m is not None:
                     if any("property" in d for d in m.decorators()):
                         return I.call_func(m.qualname, [v], {}, st, node)
+                    if any("staticmethod" in d for d in m.decorators()):
+                        return [(FuncV(m.qualname), st)]
+                    if any("classmethod" in d for d in m.decorators()):
+                        return [(BoundV(ClassV(ci.qualname), name, m.qualname), st)]
                     return [(BoundV(v, name, m.qualname), st)]
                 # class-level attribute
                 for c in I.model.mro(ci):
@@ -745,6 +753,8 @@ def getattr_(I, v: Any, name: str, st, node=None) -> list:
                     return [(m, st)]
         m = I.model.find_method(ci, name)
         if m is not None:
+            if any("classmethod" in d for d in m.decorators()):
+                return [(BoundV(v, name, m.qualname), st)]
             return [(FuncV(m.qualname), st)]
         for c in I.model.mro(ci):
             for sub in c.node.body:
@@ -1249,7 +1259,24 @@ def b_any(I, args, kwargs, st, node):
 def b_sorted(I, args, kwargs, st, node):
     items = iter_values(I, args[0], st)
     if items is None:
+        st.note("sorted() of an abstract iterable")
         return [(Unknown("sorted"), st)]
+    if kwargs.get("key") is not None and items:
+        keyed = st.alloc(HObj("list"))
+
+        def step(it, k, s):
+            s.obj(keyed).items.append((k, it))
+            return [(None, s)]
+
+        out = []
+        for _, s in _hof(I, kwargs["key"], list(items), st, step):
+            pairs = s.obj(keyed).items
+            if all(isinstance(k, (str, int)) and not isinstance(k, bool) for k, _ in pairs) and len({type(k) for k, _ in pairs}) <= 1:
+                order = sorted(range(len(pairs)), key=lambda i: pairs[i][0], reverse=bool(kwargs.get("reverse")))
+                out.append((s.alloc(HObj("list", items=[pairs[i][1] for i in order])), s))
+            else:
+                out.append((s.alloc(HObj("list", items=[it for _, it in pairs], setlike=len(pairs) > 1)), s))
+        return out
     if all(isinstance(x, (str, int)) for x in items) and "key" not in kwargs:
         return [(st.alloc(HObj("list", items=sorted(items, reverse=bool(kwargs.get("reverse"))))), st)]
     setlike = isinstance(args[0], Ref) and (st.obj(args[0]).setlike or st.obj(args[0]).kind == "set")
@@ -1418,7 +1445,20 @@ def b_iter(I, args, kwargs, st, node):
 
 
 def b_next(I, args, kwargs, st, node):
-    return [(Unknown("next"), st)]
+    from .absint import Raised
+
+    items = iter_values(I, args[0], st) if args else None
+    if items is None:
+        st.note("next() of an abstract iterator")
+        return [(Unknown("next"), st)]
+    if items:
+        # iterators are materialised lists: next() consumes the head
+        if isinstance(args[0], Ref) and st.obj(args[0]).kind == "list":
+            st.obj(args[0]).items = list(items[1:])
+        return [(items[0], st)]
+    if len(args) > 1:
+        return [(args[1], st)]
+    return [(Raised("StopIteration", node), st)]
 
 
 def b_type(I, args, kwargs, st, node):
@@ -1444,11 +1484,143 @@ def b_replace(I, args, kwargs, st, node):
     return [(Opaque("replace"), st)]
 
 
+def _hof(I, fn, items: list, st, step) -> list:
+    """Fold `step(acc_state, item, fn_result)` over items, forking with the interpreter; acc lives in the state (a heap list)."""
+    res = [(None, st)]
+    for it in items:
+        def one(_, s, it=it):
+            return I.bind(I.call(fn, [it], {}, s), lambda v, s2, it=it: step(it, v, s2))
+        res = I.bind(res, one)
+    return res
+
+
 def b_filter(I, args, kwargs, st, node):
-    return [(Unknown("filter"), st)]
+    fn, items = args[0], iter_values(I, args[1], st) if len(args) > 1 else None
+    if items is None:
+        st.note("filter over abstract iterable")
+        return [(Unknown("filter"), st)]
+    out = st.alloc(HObj("list"))
+
+    def step(it, v, s):
+        def keep(b, s2):
+            if b:
+                s2.obj(out).items.append(it)
+            return [(None, s2)]
+        return [r for b, s2 in I.truth_fork(v, s) for r in keep(b, s2)]
+
+    if fn is None:
+        st.obj(out).items = [x for x in items if truth(I, x, st)]
+        return [(out, st)]
+    return [(out, s) for _, s in _hof(I, fn, items, st, step)]
 
 
-b_map = b_filter
+def b_map(I, args, kwargs, st, node):
+    fn, items = args[0], iter_values(I, args[1], st) if len(args) == 2 else None
+    if items is None:
+        st.note("map over abstract iterable / several iterables")
+        return [(Unknown("map"), st)]
+    out = st.alloc(HObj("list"))
+
+    def step(it, v, s):
+        s.obj(out).items.append(v)
+        return [(None, s)]
+
+    return [(out, s) for _, s in _hof(I, fn, items, st, step)]
+
+
+def _ext_takewhile(I, args, kwargs, st, node, drop=False):
+    fn, items = args[0], iter_values(I, args[1], st) if len(args) > 1 else None
+    if items is None:
+        st.note("takewhile/dropwhile over abstract iterable")
+        return [(Unknown("takewhile"), st)]
+    out = st.alloc(HObj("list"))
+    flag = st.alloc(HObj("list", items=[True]))  # still in the leading run
+
+    def step(it, v, s):
+        res = []
+        if not s.obj(flag).items[0]:
+            if drop:
+                s.obj(out).items.append(it)
+            return [(None, s)]
+        for b, s2 in I.truth_fork(v, s):
+            if b:
+                if not drop:
+                    s2.obj(out).items.append(it)
+            else:
+                s2.obj(flag).items[0] = False
+                if drop:
+                    s2.obj(out).items.append(it)
+            res.append((None, s2))
+        return res
+
+    # the predicate must not be evaluated after the run ended: emulate by short-circuiting inside step
+    res = [(None, st)]
+    for it in items:
+        def one(_, s, it=it):
+            if not s.obj(flag).items[0]:
+                return step(it, None, s)
+            return I.bind(I.call(fn, [it], {}, s), lambda v, s2, it=it: step(it, v, s2))
+        res = I.bind(res, one)
+    return [(out, s) for _, s in res]
+
+
+def _ext_dropwhile(I, args, kwargs, st, node):
+    return _ext_takewhile(I, args, kwargs, st, node, drop=True)
+
+
+def _ext_islice(I, args, kwargs, st, node):
+    items = iter_values(I, args[0], st) if args else None
+    if items is None or not all(a is None or isinstance(a, int) for a in args[1:]):
+        st.note("islice over abstract iterable / bounds")
+        return [(Unknown("islice"), st)]
+    return [(st.alloc(HObj("list", items=list(items)[slice(*args[1:])])), st)]
+
+
+def _ext_groupby(I, args, kwargs, st, node):
+    items = iter_values(I, args[0], st) if args else None
+    key = kwargs.get("key", args[1] if len(args) > 1 else None)
+    if items is None:
+        st.note("groupby over abstract iterable")
+        return [(Unknown("groupby"), st)]
+    out = st.alloc(HObj("list"))
+
+    def step(it, k, s):
+        groups = s.obj(out).items
+        if groups and _same(groups[-1][0], k):
+            s.obj(groups[-1][1]).items.append(it)
+        else:
+            if groups and not (is_concrete(k) and is_concrete(groups[-1][0])):
+                s.note("groupby: equality of abstract keys")
+            groups.append((k, s.alloc(HObj("list", items=[it]))))
+        return [(None, s)]
+
+    if key is None:
+        res = [(None, st)]
+        for it in items:
+            res = I.bind(res, lambda _, s, it=it: step(it, it, s))
+        return [(out, s) for _, s in res]
+    return [(out, s) for _, s in _hof(I, key, items, st, step)]
+
+
+def _ext_reduce(I, args, kwargs, st, node):
+    from .absint import Raised
+
+    fn = args[0]
+    items = iter_values(I, args[1], st) if len(args) > 1 else None
+    if items is None:
+        st.note("reduce over abstract iterable")
+        return [(Unknown("reduce"), st)]
+    items = list(items)
+    if len(args) > 2:
+        acc = args[2]
+    elif items:
+        acc = items.pop(0)
+    else:
+        return [(Raised("TypeError", node), st)]
+    res = [(acc, st)]
+    for it in items:
+        res = I.bind(res, lambda a, s, it=it: I.call(fn, [a, it], {}, s))
+    return res
 
 
 def b_str_maketrans(I, args, kwargs, st, node):
@@ -1500,7 +1672,28 @@ def _ext_attrgetter(I, args, kwargs, st, node):
     return [(Unknown("attrgetter"), st)]
 
 
+def _ext_re_findall(I, args, kwargs, st, node):
+    """re.findall on two constant strings is a library fact; on anything abstract it is not modelled."""
+    import re as _re
+
+    if len(args) >= 2 and isinstance(args[0], str) and isinstance(args[1], str) and not kwargs and len(args) == 2:
+        try:
+            found = _re.findall(args[0], args[1])
+        except _re.error:
+            st.note("re.findall: invalid pattern")
+            return [(Unknown("findall"), st)]
+        return [(st.alloc(HObj("list", items=[x if isinstance(x, str) else tuple(x) for x in found])), st)]
+    st.note("re.findall on abstract text")
+    return [(Unknown("findall"), st)]
+
+
 EXT_CALLS = {
+    "ext:itertools.takewhile": _ext_takewhile,
+    "ext:itertools.dropwhile": _ext_dropwhile,
+    "ext:itertools.islice": _ext_islice,
+    "ext:itertools.groupby": _ext_groupby,
+    "ext:functools.reduce": _ext_reduce,
+    "ext:re.findall": _ext_re_findall,
     "ext:operator.attrgetter": _ext_attrgetter,
     "ext:itertools.chain": _ext_chain,
     "ext:itertools.chain.from_iterable": _ext_chain_from_iterable,
